@@ -30,7 +30,9 @@ CodeP == << 25, 36 >>   \* P<
 SexF == << 15 >>   \* F
 
 NumOf(n)  == CASE n = "A" -> NumA [] n = "B" -> NumB [] n = "C" -> NumC [] n = "D" -> NumD [] n = "E" -> NumE [] n = "F" -> NumF
-DobOf(n)  == IF n = "A" THEN DobA ELSE DobB
+DobC == << 36, 36, 0, 8, 1, 2 >>   \* <<0812  year unknown
+DobD == << 7, 4, 36, 36, 36, 36 >> \* 74<<<<  month and day unknown
+DobOf(n)  == CASE n = "A" -> DobA [] n = "B" -> DobB [] n = "C" -> DobC [] n = "D" -> DobD
 ExpOf(n)  == IF n = "A" THEN ExpA ELSE ExpB
 OptOf(n)  == IF n = "A" THEN OptA ELSE OptNone
 NameOf(n) == CASE n = "A" -> NameA [] n = "B" -> NameB [] n = "C" -> NameC
@@ -84,7 +86,11 @@ Swap(b, p)     == [b EXCEPT ![p] = b[p + 1], ![p + 1] = b[p]]
 Del(b, p)      == SubSeq(b, 1, p - 1) \o SubSeq(b, p + 1, Len(b))
 Ins(b, p, c)   == SubSeq(b, 1, p) \o << c >> \o SubSeq(b, p + 1, Len(b))
 
-Init == \E b \in Bases :
+\* further bases that are not mutated (the table stays small): dates of birth with unknown parts, every layout
+PlainBases == UNION { { Build(lay, NumOf(n), DobOf(d), ExpOf("A"), OptOf(o), NameOf("A")) :
+                          n \in { x \in {"A", "C"} : ~(lay = "TD3" /\ x = "C") }, d \in {"C", "D"}, o \in {"A", "N"} } : lay \in Layouts }
+Init == \/ \E b \in PlainBases : m = b /\ how = "base"
+        \/ \E b \in Bases :
           \/ m = b /\ how = "base"
           \/ \E p \in 1..Len(b), c \in SubstSet : c # b[p] /\ m = Subst(b, p, c) /\ how = "subst"
           \/ \E p \in 1..(Len(b) - 1) : b[p] # b[p + 1] /\ m = Swap(b, p) /\ how = "swap"
